@@ -666,6 +666,25 @@ pub fn generate_mode(rng: &mut Rng, tier: Tier, cases: &mut Vec<Case>, mode: Mod
         pre.add_to(&mut c);
         cases.push(c);
     }
+    // ---- one object answering tens of thousands of queries (one heap clear per query): 8/16-bit stamps wrap
+    for reps in [250usize, 65_530] {
+        // component A = 0->1->2->3, component B = 4->5->6->7 (+ chord): A is searched once, then B `reps` times
+        // (unobserved), then eight observed queries in B, one clear each: every clear count from reps+1 to reps+9
+        // after A's nodes were recorded is observed (256 resp. 65 536 among them); nodes of A must stay unknown
+        let edges = vec![(0, 1, 1), (1, 2, 1), (2, 3, 1), (4, 5, 1), (5, 6, 1), (6, 7, 1), (4, 6, 5)];
+        let mut queries = vec![Query::O2m(0, vec![3, 2]), Query::Uni(0, 3), Query::O2m(4, vec![7]), Query::Uni(4, 7)];
+        for i in 0..8 {
+            queries.push(Query::O2m(4 + i % 2, vec![2, 7]));
+            queries.push(Query::Uni(4 + i % 2, if i % 2 == 0 { 2 } else { 7 }));
+        }
+        let g = GraphCase { n: 8, rep: "static", edges, queries, sample: None };
+        let mut c = g.to_case("many-queries");
+        let i3 = c.ops.iter().position(|l| l.starts_with("Q o2m 4 7")).unwrap();
+        c.ops.insert(i3 + 1, format!("R {reps}"));
+        let i4 = c.ops.iter().position(|l| l.starts_with("Q uni 4 7")).unwrap();
+        c.ops.insert(i4 + 1, format!("R {reps}"));
+        cases.push(c);
+    }
     // ---- one-to-many with hundreds of targets (all nodes / every second node; increasing, decreasing, shuffled)
     let n_many = match tier {
         Tier::Quick => 12,
@@ -728,7 +747,7 @@ fn path_str(p: Option<Vec<usize>>) -> String {
     }
 }
 
-fn run_queries<G: Graph<usize>>(g: &G, n: usize, queries: &[Query], sample: &Option<Vec<usize>>, pre: &PreHistory, mode: Mode, obs: &mut Vec<String>) {
+fn run_queries<G: Graph<usize>>(g: &G, n: usize, queries: &[Query], repeats: &[usize], sample: &Option<Vec<usize>>, pre: &PreHistory, mode: Mode, obs: &mut Vec<String>) {
     // adjacency as the searches will see it (free: edge order inside a node's range); not for large graphs
     let nn = g.number_of_nodes();
     if sample.is_none() {
@@ -761,6 +780,17 @@ fn run_queries<G: Graph<usize>>(g: &G, n: usize, queries: &[Query], sample: &Opt
         }
     }
     for (k, q) in queries.iter().enumerate() {
+        // `R k`: the query was already answered k times by the same objects (only the last answer is observed)
+        for _ in 0..repeats.get(k).copied().unwrap_or(0) {
+            match q {
+                Query::Uni(s, t) => {
+                    uni.run(g, *s, *t);
+                }
+                Query::O2m(s, ts) => {
+                    o2m.run(g, *s, ts);
+                }
+            }
+        }
         match q {
             Query::Uni(s, t) => {
                 let d = uni.run(g, *s, *t);
@@ -808,10 +838,16 @@ pub fn execute_mode(c: &Case, obs: &mut Vec<String>, mode: Mode) {
     let mut sample: Option<Vec<usize>> = None;
     let (mut inc, mut out): (Vec<usize>, Vec<usize>) = (Vec::new(), Vec::new());
     let mut pre = PreHistory::default();
+    let mut repeats: Vec<usize> = Vec::new();
     for l in &c.ops {
         let t: Vec<&str> = l.split_whitespace().collect();
         let num = |i: usize| t[i].parse::<usize>().unwrap();
         match t[0] {
+            "R" => {
+                if let Some(last) = repeats.last_mut() {
+                    *last = num(1);
+                }
+            }
             "PG" => pre.n = num(1),
             "PE" => {
                 for it in &t[1..] {
@@ -838,10 +874,13 @@ pub fn execute_mode(c: &Case, obs: &mut Vec<String>, mode: Mode) {
                 }
             }
             "S" => sample = Some((1..t.len()).map(num).collect()),
-            "Q" => match t[1] {
-                "uni" => queries.push(Query::Uni(num(2), num(3))),
-                _ => queries.push(Query::O2m(num(2), (3..t.len()).map(num).collect())),
-            },
+            "Q" => {
+                repeats.push(0);
+                match t[1] {
+                    "uni" => queries.push(Query::Uni(num(2), num(3))),
+                    _ => queries.push(Query::O2m(num(2), (3..t.len()).map(num).collect())),
+                }
+            }
             _ => panic!("unknown op {l}"),
         }
     }
@@ -864,18 +903,18 @@ pub fn execute_mode(c: &Case, obs: &mut Vec<String>, mode: Mode) {
     match rep.as_str() {
         "static" => {
             let g = StaticGraph::new(input);
-            run_queries(&g, n, &queries, &sample, &pre, mode, obs);
+            run_queries(&g, n, &queries, &repeats, &sample, &pre, mode, obs);
         }
         "dyn" => {
             let g = DynamicGraph::new(n, input);
-            run_queries(&g, n, &queries, &sample, &pre, mode, obs);
+            run_queries(&g, n, &queries, &repeats, &sample, &pre, mode, obs);
         }
         _ => {
             let mut g: DynamicGraph<usize> = DynamicGraph::new(n, Vec::<InputEdge<usize>>::new());
             for e in &edges {
                 g.insert_edge(e.0, e.1, e.2);
             }
-            run_queries(&g, n, &queries, &sample, &pre, mode, obs);
+            run_queries(&g, n, &queries, &repeats, &sample, &pre, mode, obs);
         }
     }
 }
